@@ -1,8 +1,201 @@
-(* C12 — Slice splicing helpers equal the splice model for every index and capacity. *)
+(* C12 — Slice splicing helpers equal the splice model for every index and capacity.
+   Statements only; every proof is [exact] of a lemma from
+   Slices/SpliceProofs.v. Quantifiers: every element type, every backing array
+   [arr s] (so every capacity and every garbage content of the spare capacity
+   [skipn (len s) (arr s)]), every length [len s <= cap s] ([wf s]), every
+   position, every inserted / removed length, every growth policy of append
+   (no bound anywhere).
+
+   Reading guide (definitions in Slices/Splice.v):
+     visible s = firstn (len s) (arr s)            spare s = skipn (len s) (arr s)
+     splice_in l i xs = firstn i l ++ xs ++ skipn i l
+     splice_out l i k = firstn i l ++ skipn (i + k) l
+     append_tail growth zero s k = what follows the k appended elements in the
+       array append returns (C12_append_tail).
+   Insert, InsertSlice, Remove, RemoveSlice return the final value of [*slice]
+   and the outcome; the other functions return [Ok result] or [Panic]. *)
 From Typ Require Import Lib.Base Slices.Splice Slices.SpliceProofs.
 
+(* ---- the splice model itself: what is where afterwards ---- *)
+
+Theorem C12_splice_in_elements : forall (A : Type) (l : list A) (i : nat) (xs : list A) (j : nat),
+  i <= length l ->
+  nth_error (splice_in l i xs) j =
+  if j <? i then nth_error l j
+  else if j <? i + length xs then nth_error xs (j - i)
+  else nth_error l (j - length xs).
+Proof. exact @splice_in_nth. Qed.
+Print Assumptions C12_splice_in_elements.
+
+Theorem C12_splice_out_elements : forall (A : Type) (l : list A) (i k j : nat),
+  i + k <= length l ->
+  nth_error (splice_out l i k) j = if j <? i then nth_error l j else nth_error l (j + k).
+Proof. exact @splice_out_nth. Qed.
+Print Assumptions C12_splice_out_elements.
+
+(* append: in place (rest of the spare capacity untouched) iff there is room,
+   otherwise a new array, zero behind the appended elements *)
 Theorem C12_append : forall (A : Type) growth (zero : A) (s : gslice A) (xs : list A), wf s ->
   append growth zero s xs =
   GS (visible s ++ xs ++ append_tail growth zero s (length xs)) (len s + length xs).
 Proof. exact @append_spec. Qed.
 Print Assumptions C12_append.
+
+Theorem C12_append_tail : forall (A : Type) growth (zero : A) (s : gslice A) (k : nat),
+  (len s + k <= cap s -> append_tail growth zero s k = skipn (len s + k) (arr s)) /\
+  (cap s < len s + k ->
+     append_tail growth zero s k = repeat zero (new_cap growth (cap s) (len s + k) - (len s + k)) /\
+     len s + k <= new_cap growth (cap s) (len s + k)).
+Proof. exact @append_tail_cases. Qed.
+Print Assumptions C12_append_tail.
+
+(* ---- Insert / InsertSlice: the whole resulting array, for every valid position ---- *)
+
+Theorem C12_insert : forall (A : Type) growth (zero : A) (s : gslice A) (i : nat) (v : A),
+  wf s -> i <= len s ->
+  insert growth zero s (Z.of_nat i) v =
+  (GS (splice_in (visible s) i [v] ++ append_tail growth zero s 1) (len s + 1), Ok tt).
+Proof. exact @insert_correct. Qed.
+Print Assumptions C12_insert.
+
+Theorem C12_insert_slice : forall (A : Type) growth (zero : A) (s : gslice A) (i : nat) (vs : list A),
+  wf s -> i <= len s ->
+  insert_slice growth zero s (Z.of_nat i) vs =
+  (GS (splice_in (visible s) i vs ++ append_tail growth zero s (length vs)) (len s + length vs), Ok tt).
+Proof. exact @insert_slice_correct. Qed.
+Print Assumptions C12_insert_slice.
+
+(* the same, read as visible part / spare capacity of a well-formed slice *)
+Theorem C12_insert_visible : forall (A : Type) growth (zero : A) (s : gslice A) (i : nat) (v : A),
+  wf s -> i <= len s ->
+  let r := fst (insert growth zero s (Z.of_nat i) v) in
+  snd (insert growth zero s (Z.of_nat i) v) = Ok tt /\ wf r /\ len r = len s + 1 /\
+  visible r = splice_in (visible s) i [v] /\ spare r = append_tail growth zero s 1.
+Proof. exact @insert_visible. Qed.
+Print Assumptions C12_insert_visible.
+
+Theorem C12_insert_slice_visible : forall (A : Type) growth (zero : A) (s : gslice A) (i : nat) (vs : list A),
+  wf s -> i <= len s ->
+  let r := fst (insert_slice growth zero s (Z.of_nat i) vs) in
+  snd (insert_slice growth zero s (Z.of_nat i) vs) = Ok tt /\ wf r /\ len r = len s + length vs /\
+  visible r = splice_in (visible s) i vs /\ spare r = append_tail growth zero s (length vs).
+Proof. exact @insert_slice_visible. Qed.
+Print Assumptions C12_insert_slice_visible.
+
+(* invalid positions panic, after the append: the slice is left grown by the appended value(s) *)
+Theorem C12_insert_panics : forall (A : Type) growth (zero : A) (s : gslice A) (index : Z) (v : A),
+  (index < 0 \/ Z.of_nat (len s) < index)%Z ->
+  insert growth zero s index v = (append growth zero s [v], Panic IndexOutOfRange).
+Proof. exact @insert_panics. Qed.
+Print Assumptions C12_insert_panics.
+
+Theorem C12_insert_slice_panics : forall (A : Type) growth (zero : A) (s : gslice A) (index : Z) (vs : list A),
+  (index < 0 \/ Z.of_nat (len s) < index)%Z ->
+  insert_slice growth zero s index vs = (append growth zero s vs, Panic IndexOutOfRange).
+Proof. exact @insert_slice_panics. Qed.
+Print Assumptions C12_insert_slice_panics.
+
+(* ---- Remove / RemoveSlice: same array; behind the new length everything is as before ---- *)
+
+Theorem C12_remove : forall (A : Type) (s : gslice A) (i : nat), wf s -> i < len s ->
+  remove s (Z.of_nat i) =
+  (GS (splice_out (visible s) i 1 ++ skipn (len s - 1) (arr s)) (len s - 1), Ok tt).
+Proof. exact @remove_correct. Qed.
+Print Assumptions C12_remove.
+
+Theorem C12_remove_slice : forall (A : Type) (s : gslice A) (i k : nat), wf s -> i + k <= len s ->
+  remove_slice s (Z.of_nat i) (Z.of_nat k) =
+  (GS (splice_out (visible s) i k ++ skipn (len s - k) (arr s)) (len s - k), Ok tt).
+Proof. exact @remove_slice_correct. Qed.
+Print Assumptions C12_remove_slice.
+
+Theorem C12_remove_visible : forall (A : Type) (s : gslice A) (i : nat), wf s -> i < len s ->
+  let r := fst (remove s (Z.of_nat i)) in
+  snd (remove s (Z.of_nat i)) = Ok tt /\ wf r /\ len r = len s - 1 /\ cap r = cap s /\
+  visible r = splice_out (visible s) i 1 /\ spare r = skipn (len s - 1) (arr s).
+Proof. exact @remove_visible. Qed.
+Print Assumptions C12_remove_visible.
+
+Theorem C12_remove_slice_visible : forall (A : Type) (s : gslice A) (i k : nat), wf s -> i + k <= len s ->
+  let r := fst (remove_slice s (Z.of_nat i) (Z.of_nat k)) in
+  snd (remove_slice s (Z.of_nat i) (Z.of_nat k)) = Ok tt /\ wf r /\ len r = len s - k /\ cap r = cap s /\
+  visible r = splice_out (visible s) i k /\ spare r = skipn (len s - k) (arr s).
+Proof. exact @remove_slice_visible. Qed.
+Print Assumptions C12_remove_slice_visible.
+
+(* invalid positions panic before anything is written: slice and array unchanged *)
+Theorem C12_remove_panics : forall (A : Type) (s : gslice A) (index : Z),
+  (index < 0 \/ Z.of_nat (len s) <= index)%Z ->
+  remove s index = (s, Panic IndexOutOfRange).
+Proof. exact @remove_panics. Qed.
+Print Assumptions C12_remove_panics.
+
+Theorem C12_remove_slice_panics : forall (A : Type) (s : gslice A) (index length : Z),
+  (0 <= length)%Z -> (index < 0 \/ Z.of_nat (len s) < index + length)%Z ->
+  remove_slice s index length = (s, Panic IndexOutOfRange).
+Proof. exact @remove_slice_panics. Qed.
+Print Assumptions C12_remove_slice_panics.
+
+(* ---- Fill, Repeat, Reverse: in place, nothing beyond the length changes ---- *)
+
+Theorem C12_fill : forall (A : Type) (s : gslice A) (v : A), wf s ->
+  fill s v = Ok (GS (repeat v (len s) ++ skipn (len s) (arr s)) (len s)).
+Proof. exact @fill_correct. Qed.
+Print Assumptions C12_fill.
+
+Theorem C12_repeat : forall (A : Type) (zero v : A) (count : nat),
+  repeat_ zero v (Z.of_nat count) = Ok (GS (repeat v count) count).
+Proof. exact @repeat_correct. Qed.
+Print Assumptions C12_repeat.
+
+Theorem C12_repeat_negative : forall (A : Type) (zero v : A) (count : Z), (count < 0)%Z ->
+  repeat_ zero v count = Panic OtherPanic.
+Proof. exact @repeat_panics. Qed.
+Print Assumptions C12_repeat_negative.
+
+Theorem C12_reverse : forall (A : Type) (s : gslice A), wf s ->
+  reverse s = Ok (GS (rev (visible s) ++ skipn (len s) (arr s)) (len s)).
+Proof. exact @reverse_correct. Qed.
+Print Assumptions C12_reverse.
+
+(* ---- Concat, Clone: a new array of exactly the needed capacity; Grow: append of n zero values ---- *)
+
+Theorem C12_concat : forall (A : Type) (zero : A) (a b : gslice A), wf a -> wf b ->
+  concat_ zero a b = Ok (GS (visible a ++ visible b) (len a + len b)).
+Proof. exact @concat_correct. Qed.
+Print Assumptions C12_concat.
+
+Theorem C12_clone : forall (A : Type) (zero : A) (s : gslice A), wf s ->
+  clone zero s = Ok (GS (visible s) (len s)).
+Proof. exact @clone_correct. Qed.
+Print Assumptions C12_clone.
+
+Theorem C12_grow : forall (A : Type) growth (zero : A) (s : gslice A) (n : nat), wf s ->
+  grow growth zero s (Z.of_nat n) =
+  Ok (GS (visible s ++ repeat zero n ++ append_tail growth zero s n) (len s + n)).
+Proof. exact @grow_correct. Qed.
+Print Assumptions C12_grow.
+
+Theorem C12_grow_negative : forall (A : Type) growth (zero : A) (s : gslice A) (n : Z), (n < 0)%Z ->
+  grow growth zero s n = Panic OtherPanic.
+Proof. exact @grow_panics. Qed.
+Print Assumptions C12_grow_negative.
+
+(* Non-vacuity: a slice [1;2;3] with two garbage cells of spare capacity (so wf, 1 <= len):
+   insert in place, insert a slice with reallocation (growth policy "double"), removals that
+   leave the stale tail in place, an invalid position, Fill across two doublings, Reverse. *)
+Example C12_example :
+  let s := GS [1;2;3;-7;-8]%Z 3 in
+  let dbl := fun c _ : nat => 2 * c in
+  wf s /\
+  insert dbl 0%Z s 1 9%Z = (GS [1;9;2;3;-8]%Z 4, Ok tt) /\
+  insert_slice dbl 0%Z s 1 [7;8;9]%Z = (GS [1;7;8;9;2;3;0;0;0;0]%Z 6, Ok tt) /\
+  insert dbl 0%Z s 4 9%Z = (GS [1;2;3;9;-8]%Z 4, Panic IndexOutOfRange) /\
+  remove s 0 = (GS [2;3;3;-7;-8]%Z 2, Ok tt) /\
+  remove_slice s 1 2 = (GS [1;2;3;-7;-8]%Z 1, Ok tt) /\
+  remove s 3 = (s, Panic IndexOutOfRange) /\
+  fill (GS [1;2;3;4;5;-7]%Z 5) 6%Z = Ok (GS [6;6;6;6;6;-7]%Z 5) /\
+  reverse s = Ok (GS [3;2;1;-7;-8]%Z 3) /\
+  concat_ 0%Z s s = Ok (GS [1;2;3;1;2;3]%Z 6) /\
+  grow dbl 0%Z s 2 = Ok (GS [1;2;3;0;0]%Z 5).
+Proof. vm_compute. repeat split. apply le_S, le_S, le_n. Qed.
